@@ -70,7 +70,8 @@ META = {
                     'non-positive / the graph is disconnected); complex C with lloyd_aggregation(measure=None or min) and with '
                     'balanced_lloyd_aggregation (any measure) is generated since the repair 30b9508 (strided real part read as '
                     'contiguous memory; balanced Lloyd ignoring the measure)'],
-    'partial': [],
+    'partial': ['E59 (py_lloyd_* / py_balanced_pad_* / py_simple_*): theorems about the definitions GENERATED from the Python wrappers lloyd_aggregation, balanced_lloyd_aggregation, standard_aggregation, naive_aggregation (numerical work abstracted as events) hold on FINITE grids (lGrid: 2 wrappers x 6 measures x real/complex x nnz 0/3 x 4 (format, n, ratio) triples; sGrid: 72 scenarios), kernel evaluated; outside the grids the exact trace comparison with the real functions on mock objects (part y) decides; pairwise_aggregation is not a translator target (it is modelled as a whole by C12ZW.wrapper, E56)'],
+    'trusted_extra': ['harness/py2lean3_aggstr.py on top of harness/py2lean2.py (Python-AST -> Lean translator, second mode, driver `aggstr`: comparisons / subscripts / abs / += of opaque arrays as events), lean/PyamgV/Model/ExtPy3AggstrRt.lean (+ ExtPy2Rt.lean, ExtPyRt.lean: CPython semantics on the PyVal universe and the event semantics of opaque objects) and harness/extpy3_aggstr.py (+ extpy2.py: mock objects implementing the same event semantics in Python): exercised on every run by the exact comparison (result, exception class, whole trace) of the generated definitions with the REAL functions executed against the mocks (op e59_py3_call)'],
     'assumptions': ['Lloyd theorems (lloyd_cluster_spec, lloyd_aggregation_spec): symmetric sparsity pattern, column indices in '
                     'range, weights non-negative after the measure, distinct initial centres, maxiter >= 1; Lloyd exact comparison: '
                     'small dyadic weights (path sums exact in binary64), dyadic ratio, powers of two for measure=inv',
@@ -1394,6 +1395,7 @@ def run(ctx):
         part_d(ctx, list(graph_stream(ctx, 4, 300, 30)))
         part_v(ctx, list(graph_stream(ctx, 4, 200, 30)))     # part v (values): the random streams of the parts above are unchanged
         part_z(ctx, True)                                    # E56 parts (wrapper model, ...) last, for the same reason
+        part_y(ctx)                                          # E59 (generated wrappers vs the real ones on mock objects)
     else:
         part_a(ctx, list(graph_stream(ctx, 6, 5000, 60)))
         part_e(ctx, list(graph_stream(ctx, 5, 4000, 40)))
@@ -1402,6 +1404,17 @@ def run(ctx):
         part_d(ctx, list(graph_stream(ctx, 5, 4000, 50)))
         part_v(ctx, list(graph_stream(ctx, 5, 2500, 50)))
         part_z(ctx, False)
+        part_y(ctx)
+
+
+def part_y(ctx):
+    """extension E59: the Python wrappers standard_aggregation / naive_aggregation / lloyd_aggregation /
+    balanced_lloyd_aggregation as GENERATED from the working tree (harness/py2lean3_aggstr.py,
+    Generated/PyLogic3_aggstr.lean) vs the real functions executed against mock objects (harness/extpy3_aggstr.py):
+    result, exception class and the whole trace (measure table, real part, kernel / clustering calls, assembly of AggOp
+    with its explicit shape) compared exactly"""
+    import extpy3_aggstr
+    extpy3_aggstr.part_aggregate(ctx, ctx.scale(80, 3000))
 
 
 def part_z(ctx, quick, deep=False):
